@@ -16,7 +16,7 @@ from .sym import (Ctx, SymArray, SymBool, SymInt, SymReal, _lift, _nanz,
 STUBS = ['np.isfinite', 'np.isnan', 'np.isinf', 'np.asarray', 'np.asanyarray', 'np.array',
          'np.nansum', 'np.nanmin', 'np.nanmax', 'np.nanmean', 'np.nanmedian',
          'np.nanstd', 'np.nanvar', 'np.sqrt', 'np.floor', 'np.ceil',
-         'np.hypot', 'np.ascontiguousarray', 'np.isscalar',
+         'np.hypot', 'np.ascontiguousarray', 'np.isscalar', 'np.min', 'np.max',
          'photutils.utils._stats.nan*']
 
 _orig = {}
@@ -150,13 +150,23 @@ def _sum(v):
     return s
 
 
+def _ifmin(a, b):
+    a, b = const(a), const(b)
+    return SymReal(z3.If(b.e < a.e, b.e, a.e), False)
+
+
+def _ifmax(a, b):
+    a, b = const(a), const(b)
+    return SymReal(z3.If(b.e > a.e, b.e, a.e), False)
+
+
 def _min(v):
+    """min of non-NaN values as an If-chain (no forking)."""
     if not v:
         return NAN
     m = v[0]
     for e in v[1:]:
-        if e < m:
-            m = e
+        m = _ifmin(m, e)
     return m
 
 
@@ -165,8 +175,7 @@ def _max(v):
         return NAN
     m = v[0]
     for e in v[1:]:
-        if e > m:
-            m = e
+        m = _ifmax(m, e)
     return m
 
 
@@ -232,6 +241,32 @@ def _mk(name, f):
     return g
 
 
+def _mk2(name, f):
+    def g(x, axis=None, *a, **k):
+        if _symarr(x):
+            return _reduce2(x, axis, f)
+        return _orig[name](x, axis, *a, **k)
+    g.__name__ = name
+    return g
+
+
+def _reduce2(x, axis, f):
+    # plain (NaN-propagating) min/max: any NaN element -> NaN
+    def ff(v):
+        if any(_elem_isnan(e) for e in v):
+            return NAN
+        return f(v)
+    if axis is None:
+        return ff(list(np.asarray(x).flat))
+    x = np.moveaxis(np.asarray(x), axis, -1)
+    out = np.empty(x.shape[:-1], dtype=object)
+    for idx in np.ndindex(*x.shape[:-1]):
+        out[idx] = ff(list(x[idx]))
+    return out.view(SymArray)
+
+
+amin = _mk2('min', _min)
+amax = _mk2('max', _max)
 nansum = _mk('nansum', _sum)
 nanmin = _mk('nanmin', _min)
 nanmax = _mk('nanmax', _max)
@@ -327,9 +362,24 @@ def install():
             __import__(m)
         except Exception:  # noqa
             pass
+    try:
+        from astropy.table import Table
+        _oc = Table._convert_data_to_col
+
+        def _convert(self, data, *a, **k):
+            if isinstance(data, SymArray):
+                data = data.view(np.ndarray)
+            return _oc(self, data, *a, **k)
+        Table._convert_data_to_col = _convert
+    except Exception:  # noqa
+        pass
     g = globals()
     for k in _NAMES:
         _orig[k] = getattr(np, k)
+    _orig['min'] = np.min
+    _orig['max'] = np.max
+    np.min = np.amin = amin
+    np.max = np.amax = amax
     for k in _NAMES:
         f = g[k]
         if isinstance(_orig[k], np.ufunc):
